@@ -4,7 +4,8 @@ import P2.Generated.BinFacts
 `P2.Binning.getIndex` is written from the Go text quoted in its doc comment; `getDescr` from `to := start + i*size`,
 `from := to - size`; `Add` counts a value in exactly ONE cell, the one `getIndex` names, and the constructors allocate
 `count + 2` cells (underflow and overflow) per axis, every row of a 2-d histogram on its own. These obligations pin the text
-the model was written from: a change of the arithmetic (a precomputed scale, another clamping order, a shared row) no
+the model was written from (the locals written `x1`, `x2`, … in the order they are declared: `to` = x1 and `from` = x2 in `getDescr`, so that a renamed
+local is not a change): a change of the arithmetic (a precomputed scale, another clamping order, a shared row) no
 longer checks here, whatever the sampled workloads of Tie 2 happen to hit. -/
 namespace P2.Oblig
 open P2.Generated
@@ -13,28 +14,28 @@ def shapeOf (n : String) : List String := ((binShapes.find? (fun e => e.1 == n))
 
 theorem bin_index_formula :
     shapeOf "axis.getIndex" =
-      ["f := math.Floor((v - a.start) / a.size)",
-       "if f >= float64(a.bins-1) { return a.bins - 1 } else if f >= 0 { return int(f) + 1 }",
+      ["x1 := math.Floor((v - a.start) / a.size)",
+       "if x1 >= float64(a.bins-1) { return a.bins - 1 } else if x1 >= 0 { return int(x1) + 1 }",
        "return 0"] := by decide
 
 set_option maxRecDepth 8000 in
 theorem bin_descr_formula :
     shapeOf "axis.getDescr" =
-      ["to := a.start + float64(i)*a.size",
-       "from := to - a.size",
-       "switch i { case 0: return bin{IsMax: true, Max: to} case a.bins - 1: return bin{IsMin: true, Min: from} default: return bin{IsMin: true, Min: from, IsMax: true, Max: to} }"] := by
+      ["x1 := a.start + float64(i)*a.size",
+       "x2 := x1 - a.size",
+       "switch i { case 0: return bin{IsMax: true, Max: x1} case a.bins - 1: return bin{IsMin: true, Min: x2} default: return bin{IsMin: true, Min: x2, IsMax: true, Max: x1} }"] := by
   decide
 
 theorem bin_add_one_cell :
     shapeOf "BinningData.Add" = ["s.bins[s.a.getIndex(value)] += toSum"] ∧
-      shapeOf "Binning2dData.Add" = ["xi := s.x.getIndex(x)", "yi := s.y.getIndex(y)", "s.bins[xi][yi] += toSum"] := by decide
+      shapeOf "Binning2dData.Add" = ["x1 := s.x.getIndex(x)", "x2 := s.y.getIndex(y)", "s.bins[x1][x2] += toSum"] := by decide
 
 set_option maxRecDepth 8000 in
 theorem bin_constructors :
-    shapeOf "newBinning" = ["bins := make([]float64, count+2)", "return &BinningData{axis{start, size, len(bins)}, bins}"] ∧
+    shapeOf "newBinning" = ["x1 := make([]float64, count+2)", "return &BinningData{axis{start, size, len(x1)}, x1}"] ∧
       shapeOf "New2d" =
-        ["bins := make([][]float64, xCount+2)",
-         "for i := range bins { bins[i] = make([]float64, yCount+2) }",
-         "return &Binning2dData{axis{xStart, xSize, len(bins)}, axis{yStart, ySize, len(bins[0])}, bins}"] := by decide
+        ["x1 := make([][]float64, xCount+2)",
+         "for x2 := range x1 { x1[x2] = make([]float64, yCount+2) }",
+         "return &Binning2dData{axis{xStart, xSize, len(x1)}, axis{yStart, ySize, len(x1[0])}, x1}"] := by decide
 
 end P2.Oblig
